@@ -1,20 +1,41 @@
 // Command mc-race is the auxiliary race pass of check C18: the same
 // observer bodies as the scheduler pass (verif/mc/schedmc/driver), running
-// FREE — no scheduler, no instrumentation — from 16 goroutines on one shared
-// error, in a binary built with -race. The parent (verif/mc/schedmc.RacePass)
-// runs it with GORACE="halt_on_error=0 exitcode=66 log_path=…" and turns
-// every race report into a violation; this program itself only compares
-// every result with the observer's solo result and prints a summary.
+// FREE — no scheduler, no instrumentation — from 16 goroutines on shared
+// errors, in a binary built with -race. The parent (verif/mc/schedmc) runs
+// several fresh processes of it with GORACE="halt_on_error=0 exitcode=66
+// log_path=…" and turns every race report into a violation; this program
+// itself only compares every result with the observer's solo result and
+// prints a summary.
+//
+// Order matters. Each process does, in this order:
+//
+//  1. COLD phase — the very first library use after package initialisation:
+//     one shared error per shape (the standard shapes plus ~100 shapes over
+//     generic user types that nothing has looked at before) is built, then
+//     all goroutines are released together by one closed channel and each
+//     runs every observer on every shape, each goroutine in its own rotation.
+//     Lazily-filled package-level state (type-name caches, sync.Once-like
+//     globals) is therefore first touched concurrently. No solo baseline has
+//     been computed yet: that would warm it.
+//  2. solo baselines (each observer alone on a fresh error), and comparison of
+//     every cold-phase result against them.
+//  3. WARM rounds: fresh shared standard shapes, all goroutines looping over
+//     all observers.
+//
+// The goroutines share no harness state while they run (results go to
+// per-goroutine slices): harness synchronisation would add happens-before
+// edges and hide races.
 //
 // This is a dynamic analysis, not an enumeration of schedules.
 //
-//	mc-race <quick|thorough>
+//	mc-race <quick|thorough> [rounds iterations]
 package main
 
 import (
 	"encoding/json"
 	"fmt"
 	"os"
+	"strconv"
 	"sync"
 	"time"
 
@@ -24,70 +45,141 @@ import (
 
 const goroutines = 16
 
+type mkey struct {
+	shape, obs string
+	panicked   bool
+}
+
+type result struct {
+	s string
+	p bool
+}
+
 func main() {
 	tier := "quick"
 	if len(os.Args) > 1 {
 		tier = os.Args[1]
 	}
-	rounds, iters := 4, 30
+	rounds, iters := 1, 30
 	if tier == "thorough" {
-		rounds, iters = 8, 250
+		rounds, iters = 1, 125
+	}
+	if len(os.Args) > 3 {
+		rounds, _ = strconv.Atoi(os.Args[2])
+		iters, _ = strconv.Atoi(os.Args[3])
 	}
 	t0 := time.Now()
+	nobs := len(driver.Observers)
 	sum := schedmc.RaceSummary{Goroutines: goroutines, Rounds: rounds, Iterations: iters,
-		Shapes: len(driver.Shapes), Observers: len(driver.Observers)}
-	type mkey struct {
-		shape, obs string
-		panicked   bool
-	}
+		Shapes: len(driver.Shapes), Observers: nobs}
 	mism := map[mkey]*schedmc.RaceMismatch{}
-	var mu sync.Mutex // guards mism and sum.Calls (harness state only)
-
-	for _, sh := range driver.Shapes {
-		// solo results: each observer alone on its own fresh error.
-		solo := make([]string, len(driver.Observers))
-		for i, o := range driver.Observers {
-			solo[i], _ = driver.Guard(o, sh.Build())
+	note := func(sh *driver.Shape, o *driver.Observer, got result, want string) {
+		mk := mkey{sh.Name, o.Name, got.p}
+		if m := mism[mk]; m != nil {
+			m.Count++
+			return
 		}
+		mism[mk] = &schedmc.RaceMismatch{Shape: sh.Name, Observer: o.Name, Panic: got.p,
+			Got: driver.Short(got.s, 1200), Want: driver.Short(want, 1200), Count: 1}
+	}
+
+	// ---- 1. cold phase: nothing below has run an observer yet.
+	var coldShapes []*driver.Shape
+	coldShapes = append(coldShapes, driver.Shapes...)
+	for _, f := range driver.FreshTypes {
+		coldShapes = append(coldShapes, f.Shapes...)
+	}
+	shared := make([]error, len(coldShapes))
+	for i, sh := range coldShapes {
+		shared[i] = sh.Build()
+	}
+	cold := make([][]result, goroutines) // [goroutine][shape*nobs+observer]
+	start := make(chan struct{})
+	var wg sync.WaitGroup
+	for g := 0; g < goroutines; g++ {
+		cold[g] = make([]result, len(coldShapes)*nobs)
+		wg.Add(1)
+		go func(g int, out []result) {
+			defer wg.Done()
+			ns := len(coldShapes)
+			<-start
+			for k := 0; k < ns; k++ {
+				// every goroutine walks the shapes in its own rotation, in
+				// alternating direction, so that first uses of a type by
+				// one goroutine overlap with uses of other types by others.
+				si := (k + g*ns/goroutines) % ns
+				if g%2 == 1 {
+					si = (ns - 1 - k + g*ns/goroutines) % ns
+				}
+				for j := 0; j < nobs; j++ {
+					oi := (j + g) % nobs
+					s, p := driver.Guard(driver.Observers[oi], shared[si])
+					out[si*nobs+oi] = result{s, p}
+				}
+			}
+		}(g, cold[g])
+	}
+	close(start)
+	wg.Wait()
+	sum.ColdShapes = len(coldShapes)
+	sum.ColdCalls = int64(goroutines * len(coldShapes) * nobs)
+
+	// ---- 2. solo baselines, computed only now; compare the cold phase.
+	solo := map[*driver.Shape][]string{}
+	for si, sh := range coldShapes {
+		want := make([]string, nobs)
+		for oi, o := range driver.Observers {
+			want[oi], _ = driver.Guard(o, sh.Build())
+			for g := 0; g < goroutines; g++ {
+				if got := cold[g][si*nobs+oi]; got.s != want[oi] {
+					note(sh, o, got, want[oi])
+				}
+			}
+		}
+		solo[sh] = want
+	}
+	cold = nil
+
+	// ---- 3. warm rounds on the standard shapes.
+	for _, sh := range driver.Shapes {
+		want := solo[sh]
 		for round := 0; round < rounds; round++ {
-			// a fresh shared error per round: lazily initialised state,
-			// if a change introduces any, starts cold in every round.
-			shared := sh.Build()
+			// a fresh shared error per round: per-object lazily
+			// initialised state starts cold in every round.
+			sharedErr := sh.Build()
 			start := make(chan struct{})
-			var wg sync.WaitGroup
+			bad := make([][]struct {
+				oi  int
+				got result
+			}, goroutines)
 			for g := 0; g < goroutines; g++ {
 				wg.Add(1)
 				go func(g int) {
 					defer wg.Done()
 					<-start
-					var calls int64
 					for it := 0; it < iters; it++ {
-						for k := range driver.Observers {
+						for k := 0; k < nobs; k++ {
 							// rotate so that different observers overlap.
-							i := (k + g + it) % len(driver.Observers)
-							o := driver.Observers[i]
-							got, p := driver.Guard(o, shared)
-							calls++
-							if got != solo[i] {
-								mu.Lock()
-								mk := mkey{sh.Name, o.Name, p}
-								if m := mism[mk]; m != nil {
-									m.Count++
-								} else {
-									mism[mk] = &schedmc.RaceMismatch{Shape: sh.Name, Observer: o.Name, Panic: p,
-										Got: driver.Short(got, 1200), Want: driver.Short(solo[i], 1200), Count: 1}
-								}
-								mu.Unlock()
+							oi := (k + g + it) % nobs
+							s, p := driver.Guard(driver.Observers[oi], sharedErr)
+							if s != want[oi] && len(bad[g]) < 100 {
+								bad[g] = append(bad[g], struct {
+									oi  int
+									got result
+								}{oi, result{s, p}})
 							}
 						}
 					}
-					mu.Lock()
-					sum.Calls += calls
-					mu.Unlock()
 				}(g)
 			}
 			close(start)
 			wg.Wait()
+			sum.Calls += int64(goroutines * iters * nobs)
+			for g := range bad {
+				for _, b := range bad[g] {
+					note(sh, driver.Observers[b.oi], b.got, want[b.oi])
+				}
+			}
 		}
 	}
 	for _, m := range mism {
